@@ -148,6 +148,7 @@ type Trace struct {
 	Errors     []string     `json:"errors,omitempty"`
 	FlushStorm []string     `json:"flush_storm,omitempty"`
 	Flushes    []FlushEnter `json:"flushes,omitempty"`
+	HookLog    []string     `json:"hook_log,omitempty"`
 }
 
 // FlushEnter is recorded by the flush.enter hook point.
